@@ -22,6 +22,7 @@ Has(r, k)    == k \in DOMAIN r
 Get(r, k, d) == IF k \in DOMAIN r THEN r[k] ELSE d
 When(c, s)   == IF c THEN s ELSE <<>>
 V(prop, n, code, det) == << <<prop, n, code, det>> >>
+IsPanic(res) == Len(res) >= 2 /\ SubSeq(res, 1, 2) = "P:"
 
 MaxViol == 40
 
@@ -48,6 +49,7 @@ PeerInit(NP, N, spec) ==
     calls  |-> 0,                       \* ticks/polls since the last drain
     lastWaitCur |-> -1000,
     alive  |-> TRUE,
+    mark   |-> -1000000,                \* current frame when the fault phase ended (C05)
     nadv   |-> 0 ]
 
 InitRun(c, viol, stats, run) ==
@@ -68,6 +70,8 @@ InitRun(c, viol, stats, run) ==
        catchup |-> Get(c, "catchup", 1),
        maxDelay |-> Get(c, "max_delay", 8),
        corrupt |-> \E p \in 0..N-1 : Has(pc[p], "corrupt_from"),
+       transient |-> Get(c, "transient", FALSE),   \* every fault of this run ends before the timeout
+       marked |-> FALSE, minProgress |-> 0,
        owner |-> owner,
        isSpec |-> [p \in 0..N-1 |-> ~isP2P(p)],
        host |-> [p \in 0..N-1 |-> Get(pc[p], "host", 0)],
@@ -405,7 +409,9 @@ EvFold(gg, p, r, acc, e) ==
                     V("C07", r.n, "disconnected-before-timeout", <<p, q, pe.sil[q]>>))
             \o When(exact /\ k = "Intr" /\ e[3] # Max2(gg.timeout - gg.notify, 0),
                     V("C12", r.n, "interrupted-wrong-remaining-time", <<p, q, e[3]>>))
-      IN [acc EXCEPT !.pe.evs[q] = IF s1[1] = "bad" THEN s0 ELSE s1, !.vs = @ \o ordV \o timeV]
+          trV == When(gg.transient /\ k = "Disc",
+                      V("C05", r.n, "disconnected-although-every-fault-was-transient", <<p, q>>))
+      IN [acc EXCEPT !.pe.evs[q] = IF s1[1] = "bad" THEN s0 ELSE s1, !.vs = @ \o ordV \o timeV \o trV]
     ELSE IF k = "Wait" THEN
       [acc EXCEPT
          !.vs = @ \o When(e[2] < 3, V("C15", r.n, "wait-recommendation-below-3", <<p, e[2]>>))
@@ -453,15 +459,30 @@ PollLine(gg, r) ==
 OtherPeerLine(gg, r) ==
   \* disc / dly / stats: results are judged by the property-specific monitors
   LET p == r.p
-      isPanic == Len(r.r) >= 2 /\ SubSeq(r.r, 1, 2) = "P:"
+      isPanic == IsPanic(r.r)
       g1 == IF r.a = "dly" /\ r.r = "ok" /\ r.h \in DOMAIN gg.truth
             THEN [gg EXCEPT !.truth[r.h] = SetDelay(@, r.d)] ELSE gg
       g2 == IF Has(r, "st") THEN [g1 EXCEPT !.pr[p].stat = [h \in 0..gg.NP-1 |-> r.st[h+1]]] ELSE g1
   IN AddViol(g2, When(isPanic, V("PANIC", r.n, r.r, <<p>>))
                  \o (IF Has(r, "buf") /\ ~gg.isSpec[p] THEN BufViol(gg, p, r) ELSE <<>>))
 
+\* C05: after the faults ended every live session has advanced
+RECURSIVE ProgressV(_, _)
+ProgressV(gg, p) ==
+  IF p >= gg.N THEN <<>>
+  ELSE When(gg.pr[p].alive /\ gg.pr[p].cur - gg.pr[p].mark < gg.minProgress,
+            V("C05", 0, "session-did-not-resume-after-transient-fault", <<p, gg.pr[p].mark, gg.pr[p].cur>>))
+       \o ProgressV(gg, p + 1)
+
+\* the code under test panicked in this call: a violation of the property being checked; the
+\* peer is gone afterwards
+PanicLine(gg, r) ==
+  AddViol([gg EXCEPT !.pr[r.p].alive = FALSE, !.stats.panics = @ + 1],
+          V("PANIC", r.n, r.r, <<r.p, r.a>>))
+
 Update(gg, r) ==
   LET a == r.a IN
+  IF Has(r, "r") /\ Has(r, "p") /\ a # "cfg" /\ IsPanic(r.r) THEN PanicLine(gg, r) ELSE
   CASE a = "cfg"  -> InitRun(r.cfg, gg.viol, [gg.stats EXCEPT !.runs = @ + 1], gg.run + 1)
     [] a = "tick" -> IF r.r = "skip" THEN gg
                      ELSE IF gg.isSpec[r.p] THEN TickSpec(gg, r) ELSE TickP2P(gg, r)
@@ -469,6 +490,10 @@ Update(gg, r) ==
     [] a = "ev"   -> IF r.r = "skip" THEN gg ELSE EvLine(gg, r)
     [] a \in {"disc", "dly", "stats", "addonly"} -> IF r.r = "skip" THEN gg ELSE OtherPeerLine(gg, r)
     [] a = "kill" -> [gg EXCEPT !.pr[r.p].alive = FALSE]
+    [] a = "mark" -> [gg EXCEPT !.marked = TRUE, !.minProgress = r.min_progress,
+                                !.pr = [p \in 0..gg.N-1 |-> [gg.pr[p] EXCEPT !.mark = gg.pr[p].cur]]]
+    [] a = "end"  -> IF gg.N > 0 /\ gg.marked
+                     THEN AddViol(gg, ProgressV(gg, 0)) ELSE gg
     [] a = "dlv"  -> Bump(gg, "delivered", 1)
     [] a = "drop" -> Bump(gg, "dropped", 1)
     [] a = "dup"  -> Bump(gg, "dupd", 1)
